@@ -126,7 +126,7 @@ def run_kani(prop, tier, seed):
 # ---------------------------------------------------------------------------------------------
 def unsafe_inventory(under_contract):
     """every `unsafe` block of /repo/src (non-test code) with its enclosing function; covered = that function is under contract
-    in a unit serving C13.  under_contract: set of (file relative to repo, impl type or '', fn name)"""
+    in a unit serving C13.  under_contract: set of (file relative to repo, first line, last line) of the extracted functions"""
     import glob
     files = sorted(glob.glob(os.path.join(REPO, "src", "**", "*.rs"), recursive=True))
     req = {"items": [{"id": os.path.relpath(f, REPO), "file": f, "kind": "inventory", "name": ""} for f in files]}
@@ -140,15 +140,65 @@ def unsafe_inventory(under_contract):
     for item in json.loads(p.stdout):
         rel = item["id"]
         for row in item.get("inventory", []):
+            if row.get("kind", "unsafe") != "unsafe":
+                continue
             total += 1
             fn = row["fn"]
-            name = fn.split("::")[-1]
-            ok = any(f == rel and n == name and (not t or t in fn) for (f, t, n) in under_contract)
+            ln = int(row["line"])
+            ok = any(f == rel and a <= ln <= b for (f, a, b) in under_contract)
             if ok:
                 covered += 1
             else:
                 open_sites.append("%s:%s %s" % (rel, row["line"], fn))
     return {"unsafe_blocks_total": total, "unsafe_blocks_in_functions_under_contract": covered, "unsafe_blocks_not_covered": open_sites}
+
+
+def function_inventory():
+    """every fn definition with a body in /repo/src outside test code (functions written inside macro_rules bodies are not
+    parsed and not listed) against the functions under contract in ANY registered unit, matched by file and source line
+    range of the extracted text; mechanical, recomputed every run"""
+    import glob
+    import tempfile
+    import vcheck
+    spans = []   # (file, start, end)
+    tmp = tempfile.mkdtemp(prefix="inv_", dir=os.path.join(VERIF, "build"))
+    try:
+        for u in vcheck.load_units(None):
+            try:
+                u.generate(os.path.join(tmp, u.name))
+            except Exception:
+                continue
+            for d in u.fns:
+                if d.vx and not getattr(d, "dep", False):
+                    spans.append((d.opts["file"], d.vx["orig_start_line"], d.vx["orig_end_line"]))
+        files = sorted(glob.glob(os.path.join(REPO, "src", "**", "*.rs"), recursive=True))
+        # test-only files (declared `#[cfg(test)] mod ...;` in their parent)
+        files = [f for f in files if os.path.basename(f) not in ("fixture.rs", "proptest_strategy.rs")]
+        req = {"items": [{"id": os.path.relpath(f, REPO), "file": f, "kind": "inventory", "name": ""} for f in files]}
+        rp = os.path.join(tmp, "inventory.req.json")
+        json.dump(req, open(rp, "w"))
+        p = subprocess.run([os.path.join(VERIF, "tools/vx/target/release/vx"), rp], capture_output=True, text=True)
+    finally:
+        shutil.rmtree(tmp, ignore_errors=True)
+    if p.returncode != 0:
+        return {"error": p.stderr[-500:]}
+    total, covered, open_fns = 0, 0, []
+    for item in json.loads(p.stdout):
+        rel = item["id"]
+        for row in item.get("inventory", []):
+            if row.get("kind") != "fn":
+                continue
+            fn = row["fn"]
+            parts = [x for x in fn.split("::")]
+            if len(parts) > 2 or (len(parts) == 2 and not (fn.startswith("<") or fn.startswith("trait ") or parts[0][:1].isupper())):
+                continue   # fn nested inside a fn
+            total += 1
+            ln = int(row["line"])
+            if any(f == rel and a <= ln <= b for (f, a, b) in spans):
+                covered += 1
+            else:
+                open_fns.append("%s:%s %s" % (rel, row["line"], fn))
+    return {"functions_total": total, "functions_under_contract": covered, "functions_not_under_contract": open_fns}
 
 
 STANDIN_PROPS = {"C01", "C02", "C03", "C04", "C05", "C06", "C07", "C08", "C09", "C10", "C11", "C12", "C14", "C13", "C15", "C16", "C17", "C18", "C19", "C20"}
